@@ -278,6 +278,15 @@ func (b *AlonzoTransactionBody) UnmarshalCBOR(cborData []byte) error {
 	return nil
 }
 
+func (b *AlonzoTransactionBody) MarshalCBOR() ([]byte, error) {
+	// Return the original CBOR if available so that re-encoding a decoded
+	// object reproduces the exact bytes it was decoded from
+	if b.Cbor() != nil {
+		return b.Cbor(), nil
+	}
+	return cbor.EncodeGeneric(b)
+}
+
 func (b *AlonzoTransactionBody) Inputs() []common.TransactionInput {
 	items := b.TxInputs.Items()
 	ret := make([]common.TransactionInput, len(items))
